@@ -7,6 +7,49 @@ class Source:
         with open(path) as fh:
             raw = json.load(fh)
         self.files = {f["path"]: f for f in raw["files"]}
+        self._extra = {}     # id(source fn) -> {id(helper source fn): helper source fn}
+
+    def fn_at(self, file, line):
+        """innermost source function of `file` whose span contains `line`"""
+        best = None
+        for p, f in self.files.items():
+            if not (p == file or p.endswith("/" + file) or file.endswith("/" + p)):
+                continue
+            for fn in f["fns"]:
+                if fn["span"][0] <= line <= fn["span"][2]:
+                    if best is None or (fn["span"][2] - fn["span"][0]) < (best["span"][2] - best["span"][0]):
+                        best = fn
+        return best
+
+    def attach(self, program):
+        """Functions the reviewed tree does not have were expanded into their callers (inline.py); their strings are
+        reported with the strings of the function they were expanded into."""
+        for b in program.lib_bodies():
+            inl = b.raw.get("inlined")
+            if not inl:
+                continue
+            host = self.fn_at(b.file, b.line)
+            if host is None:
+                continue
+            for hp in inl:
+                hb = program.helper_bodies.get(b.crate + "::" + hp)
+                if hb is None:
+                    continue
+                hf = self.fn_at(hb.file, hb.line)
+                if hf is not None and hf is not host:
+                    self._extra.setdefault(id(host), {})[id(hf)] = hf
+
+    def _merged(self, fn):
+        extra = self._extra.get(id(fn))
+        if not extra:
+            return fn
+        m = dict(fn)
+        for key in ("strings", "let_underscore"):
+            m[key] = list(fn.get(key, []))
+            for hf in extra.values():
+                m[key].extend(hf.get(key, []))
+        m["merged_helpers"] = sorted(hf["name"] for hf in extra.values())
+        return m
 
     def file(self, path):
         return self.files.get(path)
@@ -26,7 +69,7 @@ class Source:
                     continue
                 if impl is not None and impl not in fn["impl"]:
                     continue
-                yield p, fn
+                yield p, self._merged(fn)
 
     def const(self, path, name):
         f = [f for p, f in self.files.items() if p.endswith(path)]
